@@ -41,7 +41,7 @@ def record(seed, estimator="nonparametric"):
     pre, cur = synth.make_election(n=40, states=("AA", "BB"), seed=seed, frac_reporting=0.7, thr=100)
     pre = synth.with_margin_features(pre)
     # several estimands: the hidden results of EVERY requested estimand must be invisible, whatever their order
-    est = ("margin",) if estimator == "bootstrap" else [("turnout",), ("turnout", "dem"), ("dem", "turnout")][seed % 3]
+    est = ("margin",) if estimator == "bootstrap" else [("turnout",), ("turnout", "dem"), ("dem", "turnout"), ("dem",)][seed % 4]
     feats = ["baseline_normalized_margin", "x1"] if estimator == "bootstrap" else ["x1"]
     # the historical election: same units, baseline_* = results of the election before it, results_* = its own results
     hist = pre.copy()
@@ -76,7 +76,9 @@ def record(seed, estimator="nonparametric"):
             frame.to_csv(f"{d}/data/{HIST}/G/data_precinct.csv", index=False)
             os.chdir(d)
             c = HistoricalModelClient()
-            mp = {"fit_margin_outlier_model": False, "fit_turnout_outlier_model": False}
+            # every third run keeps the default outlier models on; with `dem` alone the historical turnout of the hidden
+            # units is handed to the model un-hidden (only the requested estimands are blanked) - it must not matter either
+            mp = {} if seed % 3 == 0 else {"fit_margin_outlier_model": False, "fit_turnout_outlier_model": False}
             if estimator == "bootstrap":
                 mp["B"] = 10
             res = c.get_historical_evaluation(
